@@ -982,6 +982,21 @@ func replay(w *rec.Writer, path string) {
 			if json.Unmarshal(line, &d) == nil {
 				runStress(w, d)
 			}
+		case "mpsc_oneshot":
+			var d stressDesc
+			if json.Unmarshal(line, &d) == nil {
+				runMpscOneShot(w, d)
+			}
+		case "probe":
+			var d probeDesc
+			if json.Unmarshal(line, &d) == nil {
+				runProbe(w, d)
+			}
+		case "medium":
+			var d mediumDesc
+			if json.Unmarshal(line, &d) == nil {
+				runMedium(w, d)
+			}
 		}
 	}
 }
@@ -990,13 +1005,26 @@ func main() {
 	o := rec.ParseFlags()
 	w := rec.NewWriter(o.Out)
 	defer w.Close()
+	selfTestMedia()
 	if o.Replay != "" {
 		replay(w, o.Replay)
 		return
 	}
 	r := rec.NewRand(o.Seed)
 	n := o.N
-	nSeqM, nSeqS, nConM, nConS := n*45/100, n*15/100, n*25/100, n*15/100
+	nSeqM, nSeqS, nConM, nConS, nMed := n*35/100, n*12/100, n*23/100, n*12/100, n*18/100
+	for v := 1; v <= 9; v++ {
+		runProbe(w, probeDesc{Kind: "probe", Variant: v})
+	}
+	// the teardown sequence of ProcessSender on a QueueMedium / AccumulatorMedium
+	for k := 0; k <= 1; k++ {
+		runMedium(w, mediumDesc{Kind: "medium", Medium: k, Cap: 4, Ops: []medOp{
+			{opRecv, false, 0}, {opSend, true, 1}, {opSend, true, 2}, {opClose, true, 0},
+			{opRecv, true, 0}, {opRecv, true, 0}, {opRecv, true, 0}, {opRecv, true, 0}}})
+	}
+	for i := 0; i < nMed; i++ {
+		runMedium(w, genMedium(r.Fork()))
+	}
 	// fixed corner cases first
 	f := false
 	runMpmcSeq(w, mpmcSeqDesc{Kind: "mpmc_seq", Cap: 3, Exts: 0, NT: &f})
@@ -1014,10 +1042,11 @@ func main() {
 	for i := 0; i < nConS; i++ {
 		runMpscConc(w, genMpscConc(r.Fork()))
 	}
-	ms := 8000
+	ms, ms1 := 5000, 3000
 	if o.Tier == "thorough" {
-		ms = 90000
+		ms, ms1 = 60000, 30000
 	}
 	procs := rec.Pick(r, []int{2, 3, 4, 8})
+	runMpscOneShot(w, stressDesc{Kind: "mpsc_oneshot", Millis: ms1, Procs: procs, R: 4})
 	runStress(w, stressDesc{Kind: "stress", Millis: ms, Procs: procs, R: 6})
 }
